@@ -758,8 +758,8 @@ impl Array {
             //check if positive and if below length of array
             IntegerOrInfinity::Integer(i) if i >= 0 && i < len => i,
             //5. Else, let k be len + relativeIndex
-            //integer should be negative, so abs() and check if less than or equal to length of array
-            IntegerOrInfinity::Integer(i) if i < 0 && i.abs() <= len => len + i,
+            // the integer is negative: `len + i >= 0` (and not `i.abs() <= len`, `abs` overflows for `i64::MIN`)
+            IntegerOrInfinity::Integer(i) if i < 0 && len + i >= 0 => len + i,
             //handle most likely impossible case of
             //IntegerOrInfinity::NegativeInfinity || IntegerOrInfinity::PositiveInfinity
             //by returning undefined
